@@ -271,6 +271,15 @@ Fixpoint run (c : config) (k : nat) (ss : list sstate) (inps : list (list (bool 
   | i :: tl => let '(ss', out) := step c k ss i in out :: run c k ss' tl
   end.
 
+(* the same with the synapse's delay (in steps) given per step: delays re-assigned between steps through
+   Connection.delay's setter / the Updater (delay learning); every read uses the delay in force at that step *)
+Fixpoint run_k (c : config) (ss : list sstate) (inps : list (nat * (list (bool * bool) * signal)))
+  : list (option R * option R) :=
+  match inps with
+  | [] => []
+  | i :: tl => let '(ss', out) := step c (fst i) ss (snd i) in out :: run_k c ss' tl
+  end.
+
 (* Accumulator: appending a part; pos / neg = torch.sum(stack(parts)) or None *)
 Definition acc_add (a x : option R) : option R :=
   match x with
